@@ -398,7 +398,7 @@ func runC05(c *run.Ctx) {
 		kind := []string{"iface", "any", "reflect", "mixed-any", "mixed-reflect"}[i%5]
 		refl := kind == "reflect" || kind == "mixed-reflect"
 		abs := kind == "reflect" && i%2 == 0 // abstract-typed data needs type bindings (reflection only)
-		ec := newExecCase(r, gen.SchemaOpts{Args: false, Abstract: abs}, gen.DocOpts{Frags: true, Aliases: true, Depth: 2 + r.Intn(3), Abstract: abs})
+		ec := newExecCase(r, gen.SchemaOpts{Args: false, Abstract: abs}, gen.DocOpts{Frags: true, Aliases: true, Depth: 2 + r.Intn(3), Abstract: abs, DupKeys: i%2 == 1})
 		if refl && !back.ReflectFriendly(ec.S) {
 			continue
 		}
